@@ -14,11 +14,13 @@ RULE = ("TraceKernel.tla is a law table evaluated by TLC on recorded evaluation 
         "both signs) agree within 1e-7 + eps/(pi sqrt(1-rho^2)) (bound verified by TLC by squaring); |rho| -> 1 limit; zero covariance: "
         "gaussian, sbvn_cdf, norm_cdf = Phi table / product to 1e-12; uniform = exact box CDF (rational). "
         "Non-trivial = every grid; distinct = (kind, rho, variances, mean). No state space: level exploration.")
+RIDGE_TS = list(range(-32, 33))
 TS = [-80, -40, -24, -16, -8, -4, -2, -1, 0, 1, 2, 4, 8, 16, 24, 40, 80]
 ANCH = {"sin(pi/12)": (math.sin(math.pi / 12), (1, 24)), "1/2": (0.5, (1, 12)), "sqrt2/2": (math.sqrt(2) / 2, (1, 8)),
         "sqrt3/2": (math.sqrt(3) / 2, (1, 6)), "sin(5pi/12)": (math.sin(5 * math.pi / 12), (5, 24))}
 OTHER = [0.1, 0.29, 0.31, 0.6, 0.74, 0.76, 0.9, 0.92, 0.93, 0.95, 0.99, 0.999]
-VARS = [(1.0, 1.0), (0.25, 4.0), (1e-4, 1e4), (1e-8, 4e-8), (4.0, 1.0), (1e-12, 1e-12)]
+VARS = [(1.0, 1.0), (0.25, 4.0), (0.3, 1.7), (1e-4, 1e4),       # (0.3, 1.7): standard deviations that are not dyadic -- the standardised coordinates of ridge points agree only up to the last bits
+ (1e-8, 4e-8), (4.0, 1.0), (1e-12, 1e-12)]
 MUS = [(0.0, 0.0), (3.0, -2.0)]
 
 
@@ -48,7 +50,7 @@ def run(ctx):
         return dict(kind="bvn", ts=TS, mu=list(mu), vx=v[0], vy=v[1], rho=rho, intpts=intpts)
     rhos = [(n, r0, a) for n, (r0, a) in ANCH.items()] + [(str(r0), r0, (0, 0)) for r0 in (OTHER if not quick else OTHER[::2] + [0.93])]
     for name, rho, anc in rhos:
-        for vi, v in enumerate(VARS if not quick else VARS[:4]):
+        for vi, v in enumerate(VARS if not quick else VARS[:5]):
             mu = MUS[(vi + len(name)) % 2] if min(v) >= 1e-4 else MUS[0]   # a non-zero mean with a tiny sd would put x - mu off the lattice by cancellation
             meta.append(("grid", name, anc, mu, v, len(jobs)))
             jobs += [bvn(rho, mu, v), bvn(-rho, mu, v)]
@@ -79,6 +81,13 @@ def run(ctx):
             jobs.append(dict(kind="product", ts=TS, mu=list(mu), vx=v[0], vy=v[1]))
     meta.append(("product", 0.0, None, MUS[1], (64.0, 64.0), len(jobs)))
     jobs.append(dict(kind="product", ts=TS, mu=list(MUS[1]), vx=64.0, vy=64.0, intpts=True))
+    # ridge scans of strongly (and moderately) correlated kernels with decimal means and non-dyadic standard deviations
+    for r0 in (0.5, 0.8, 0.93, 0.95, 0.99, 0.995):
+        for sgn in (1, -1):
+            for v, mu in (((0.3, 1.7), (0.3, 0.2)), ((0.01, 0.04), (-1.3, 2.7)), ((2.0, 0.7), (10.1, -4.3))):
+                for zs in (1.0, 0.3, 0.7):      # (steps of 1/8, 0.0375 and 0.0875 standard deviations: the last two are not dyadic)
+                    meta.append(("ridge", sgn * r0, (sgn, zs), mu, v, len(jobs)))
+                    jobs.append(dict(kind="ridge", ts=RIDGE_TS, mu=list(mu), vx=v[0], vy=v[1], rho=sgn * r0, sgn=sgn, zscale=zs))
     upts = []
     for _ in range(200 if quick else 2000):
         w, h = 2 * rng.randint(1, 6), 2 * rng.randint(1, 6)          # half ticks, even so that centre +- w/2 is a whole half tick
@@ -102,6 +111,12 @@ def run(ctx):
             elif kind == "slepian":
                 g = lambda rr: decode(rr["V"] if "V" in rr else rr["VG"])
                 cases.append(dict(kind="slepian", ts=TS, VA=g(results[at]), VB=g(results[at + 1])))
+            elif kind == "ridge":
+                R = []
+                for x in results[at]["R"]:
+                    vv = unfl(x)
+                    R.append([0, fix(0)] if (vv != vv or abs(vv) == float("inf") or abs(vv) > 1e6) else [1, fix(Fraction(vv))])
+                cases.append(dict(kind="ridge", ts=RIDGE_TS, R=R, sgn=b[0], frechet=int(b[1] == 1.0)))
             elif kind == "limit":
                 cases.append(dict(kind="limit", ts=TS, V=decode(results[at]["V"])))
             elif kind == "product":
